@@ -944,6 +944,96 @@ theorem write_read_faithful (xs : List Entry) (np : Bool) (d : DT)
 
 
 
+/-! ### the hypotheses of the main theorem, decided -/
+
+theorem entryWFB_iff (np : Bool) (d : DT) (e : Entry) : entryWFB np d e = true ↔ EntryWF np d e := by
+  cases e <;> simp [entryWFB, EntryWF]
+
+theorem domainOf_wf (xs : List Entry) (np : Bool) (d : DT) (h : domainOf xs = some (np, d)) :
+    ∀ e ∈ xs, EntryWF np d e := by
+  unfold domainOf at h
+  split at h
+  · rename_i hall
+    simp only [Option.some.injEq, Prod.mk.injEq] at h
+    obtain ⟨rfl, rfl⟩ := h
+    intro e he
+    exact (entryWFB_iff _ _ e).mp (List.all_eq_true.mp hall e he)
+  · simp at h
+
+theorem noSentinelB_sound (d : DT) (xs : List Entry) (h : noSentinelB d xs = true) : NoSentinel d xs := by
+  intro hany np dt v hmem
+  unfold noSentinelB at h
+  simp only [hany, Bool.not_true, Bool.false_or] at h
+  have := List.all_eq_true.mp h _ hmem
+  simpa using this
+
+/-- **the main theorem with its hypotheses decided**: the harness evaluates `domainOf` and `noSentinelB` (driver op
+`domain`) on every generated value list of the correspondence stream; where both hold and the list is accepted, reading
+returns the documented normalisation of every entry -/
+theorem write_read_decided (xs : List Entry) (np : Bool) (d : DT) (hd : domainOf xs = some (np, d))
+    (hs : noSentinelB d xs = true) (st : Stored) (h : writeParam xs = .ok st) :
+    readParam xs.length st = some (xs.map (normalise (jaggedTest xs))) :=
+  write_read_faithful xs np d (domainOf_wf xs np d hd) (noSentinelB_sound d xs hs) st h
+
+/-- **totality on the domain**: a non-empty in-domain list is never left undecided by the model of `_writeParams`:
+it is refused at write time, skipped (everything unset) or stored — and when stored, `write_read_decided` applies -/
+theorem in_domain_decided (xs : List Entry) (np : Bool) (d : DT) (hd : domainOf xs = some (np, d)) (hne : xs ≠ []) :
+    writeParam xs ≠ .ood := by
+  unfold writeParam
+  have he : xs.isEmpty = false := by cases xs <;> simp_all
+  simp only [he, Bool.false_eq_true, if_false]
+  split
+  · unfold writeJagged
+    split
+    · simp
+    · split
+      · simp
+      · simp only
+        split
+        · simp
+        · split <;> simp
+  · split
+    · simp
+    · split
+      · cases xs with
+        | nil => exact absurd rfl hne
+        | cons x r =>
+          simp only
+          repeat' split
+          all_goals simp
+      · split
+        · simp
+        · rename_i hnarr
+          unfold writeObject
+          split
+          · simp
+          · split
+            · split <;> simp
+            · rename_i hnd
+              have hwf := domainOf_wf xs np d hd
+              have hall : xs.all (fun e => isNone e || isScal e) = true := by
+                rw [List.all_eq_true]
+                intro e he'
+                have h1 : isArrayLike e = false := by
+                  have := hnarr
+                  simp only [List.any_eq_true, not_exists, not_and, Bool.not_eq_true] at this
+                  exact this e he'
+                have h2 : isDict e = false := by
+                  have := hnd
+                  simp only [List.any_eq_true, not_exists, not_and, Bool.not_eq_true] at this
+                  exact this e he'
+                cases e <;> simp_all [isArrayLike, isDict, isNone, isScal]
+              simp only [hall, if_true]
+              repeat' split
+              all_goals simp
+
+/-- non-vacuity: an in-domain list with a None that is accepted; one outside the domain (mixed dtypes); the excluded
+point of the guard (the sentinel itself next to a None) -/
+example : domainOf [.scal false .i64 (.i 3), .none, .scal false .i64 (.i 4)] = some (false, .i64)
+    ∧ noSentinelB .i64 [.scal false .i64 (.i 3), .none, .scal false .i64 (.i 4)] = true := by decide
+example : domainOf [.scal false .i64 (.i 3), .scal false .f64 (.f (some 1))] = none := by decide
+example : noSentinelB .i64 [.scal false .i64 (.i (-9223372036854775806)), .none] = false := by decide
+
 /-! ### flags: bytes -/
 
 /-- **flag bytes round trip, every width**: `to_bytes` succeeds exactly when the value fits, yields `width`
